@@ -31,6 +31,7 @@ import NeoModel.Proofs.MptRcLazy
 import NeoModel.Proofs.MptRcRefine
 import NeoModel.Proofs.MptRcGcIndex
 import NeoModel.Proofs.MptRcGoTie
+import NeoModel.Proofs.MptRcGoTie2
 import NeoModel.Proofs.MptRcLayered
 import NeoModel.Proofs.MptRcChain
 import NeoModel.Proofs.MptRcRead
@@ -603,5 +604,50 @@ example : ∃ s, runOps toyH { mode := .gc } jumpOps = some s ∧
     (∀ h c, sget s.store h = some c → (∃ b n, c = .rc b true n ∧ 0 < n) ∨ (∃ b k, c = .rc b false k)) ∧
     (∀ e ∈ s.hist, s.gcAt ≤ e.1 → Kept toyH s.store e.2 e.1) :=
   gc_mode_exact toyH jumpOps (by simp [jumpOps, Heights])
+
+/-! ## 10. more of the code by translation (regenerated from /repo on every run) -/
+
+/-- C11.10a `traceable` of section 6 IS the code's test: the translated dao.go `isTraceableBlock` and
+native/ledger.go `Ledger.isTraceableBlock` (either hardfork branch), for `index + mtb < 2^32`. -/
+theorem traceable_is_translated_code (index height mtb : Nat) (h32 : index + mtb < 4294967296) :
+    Generated.GoFuncs.isTraceableBlock (height : Int) (mtb : Int) (index : Int) = traceable index height mtb ∧
+    (∀ cfgMtb : Int, Generated.GoFuncs.ledgerIsTraceableBlock (index : Int) (height : Int) cfgMtb true (mtb : Int) = traceable index height mtb) ∧
+    (∀ polMtb : Int, Generated.GoFuncs.ledgerIsTraceableBlock (index : Int) (height : Int) (mtb : Int) false polMtb = traceable index height mtb) :=
+  traceable_is_translated index height mtb h32
+
+/-- C11.10b the MaxTraceableBlocks the node uses is the translated `Blockchain.GetMaxTraceableBlocks`
+(`getMtb`: config value before Echidna, Genesis value at height 0, the Policy's afterwards). Along the
+chain it never grows, so every change of it — the hardfork switch included — is one of the lowerings
+(`newMtbOf`) over which `node_gc_index_below_window` / `node_traceable_roots_readable` quantify:
+PROVIDED 0 < Genesis.MaxTraceableBlocks ≤ MaxTraceableBlocks (not checked by NewBlockchain) and the
+Policy value only went down from its initial Genesis value (`policy_lowers_mtb_only`). -/
+theorem mtb_only_lowers_along_chain (cfgMtb genMtb : Nat) (echidna : Option Nat) (h h' : Nat) (p p' : Nat)
+    (hh : h ≤ h') (h32 : h' < 4294967296) (hg0 : 0 < genMtb) (hg : genMtb ≤ cfgMtb)
+    (hp0 : 0 < p') (hp : p' ≤ p) (hpg : p ≤ genMtb) :
+    newMtbOf (getMtb cfgMtb genMtb echidna p h) (some (getMtb cfgMtb genMtb echidna p' h')) =
+      getMtb cfgMtb genMtb echidna p' h' ∧
+    getMtb cfgMtb genMtb echidna p' h' ≤ getMtb cfgMtb genMtb echidna p h :=
+  getMtb_only_lowers cfgMtb genMtb echidna h h' p p' hh h32 hg0 hg hp0 hp hpg
+
+example : getMtb 5 3 (some 10) 3 9 = 5 ∧ getMtb 5 3 (some 10) 2 12 = 2 ∧ getMtb 5 3 (some 0) 3 0 = 3 := by decide
+
+/-- C11.10c (NEGATION of 10b without its proviso) a configuration with Genesis.MaxTraceableBlocks above
+MaxTraceableBlocks and Echidna at a height > 0 makes the window GROW at the hardfork: MaxTraceableBlocks
+2, Genesis value 5, Echidna at 10: at persisted height 9 the node collects at 7; at height 10 height 6
+is traceable again, its state was collected. -/
+theorem mtb_grows_at_hardfork_if_misconfigured :
+    getMtb 2 5 (some 10) 5 9 = 2 ∧ getMtb 2 5 (some 10) 5 10 = 5 ∧
+    tryRunGC { gcp := 1 } 2 8 9 = some 7 ∧ traceable 6 10 (getMtb 2 5 (some 10) 5 10) = true :=
+  getMtb_can_grow_at_hardfork
+
+/-- C11.10d the active flag the model keeps in `Cell.rc _ active _` is what the translated
+`mpt.IsActiveValue` reads from a stored value `bytes ‖ flag ‖ counter`. -/
+theorem is_active_value_translated (b : List UInt8) (flag : UInt8) (c0 c1 c2 c3 : UInt8) :
+    let v := b ++ [flag, c0, c1, c2, c3]
+    Generated.GoFuncs.mptIsActiveValue (v.length : Int) ((v.getD (v.length - 5) 0).toNat : Int) = decide (flag = 1) :=
+  isActiveValue_flag b flag c0 c1 c2 c3
+
+example : Generated.GoFuncs.mptIsActiveValue 7 1 = true ∧ Generated.GoFuncs.mptIsActiveValue 7 0 = false ∧
+    Generated.GoFuncs.mptIsActiveValue 4 1 = false := by decide
 
 end NeoModel.C11
